@@ -42,8 +42,13 @@ def faultEvents (hasBody bodySent : Bool) (f : Fault) : List Ev :=
   | .fullReset => [.serverFailed .other false]
   | .peekClose => [.serverFailed .other false]
   | .headClose => [.serverFailed (if hasBody then .other else .zero) false]
-  | .partHead 0 false => [.serverFailed .zero false]
-  | .partHead _ _ => [.serverFailed .other false]                       -- ERR_INVALID_RESP (truncated head) / ERR_READ_ERROR
+  | .partHead k false =>
+    -- EOF inside the reply head.  Http1::ResponseParser keeps checkpoints after "HTTP/1.1 " (9 octets), after the
+    -- status code and its SP (13) and after the status line (17 for "HTTP/1.1 200 OK\r\n"): when the received
+    -- prefix ends exactly at a checkpoint, inBuf is empty at EOF and continueAfterParsingHeader reports
+    -- ERR_ZERO_SIZE_OBJECT; otherwise ERR_INVALID_RESP
+    [.serverFailed (if k = 0 ∨ k = 9 ∨ k = 13 ∨ k = 17 then .zero else .other) false]
+  | .partHead _ true => [.serverFailed .other false]                    -- ERR_READ_ERROR (ECONNRESET)
 
 def feed (c : Cfg) (r : Req) : St → List Ev → List Out → St × List Out
   | s, [], acc => (s, acc)
